@@ -137,7 +137,7 @@ func c12Monitor(args []string) int {
 		in := func() map[string]interface{} {
 			return map[string]interface{}{"session": sess, "seed": seed, "script": strings.Join(script, " ; ")}
 		}
-		do := func(c string) { script = append(script, c); s.send(c) }
+		do := func(c string) { script = append(script, c); setCurrent(in()); s.send(c) }
 		do("uci")
 		if !s.waitCount("uciok", 1, 10*time.Second) {
 			rep.Violate("uciok-missing", in(), "")
